@@ -1,28 +1,26 @@
 #!/bin/bash
-# Re-runs every stored seeded change against the current checks and refreshes the detection fields of its meta.json.
-# (Applies each patch to /repo, runs the quick checks, reverts.)
+# Re-runs every stored seeded change against the current checks (in scratch worktrees, /repo untouched; see seed_par.sh),
+# and refreshes the detection fields of its meta.json. usage: seed_recheck.sh [jobs] [name-glob]
 set -u
 cd /verif
-for d in seeded/*/; do
-  name=$(basename "$d")
-  cd /repo
-  if [ -n "$(git status --porcelain)" ]; then echo "repo dirty"; exit 2; fi
-  if ! git apply --check "/verif/$d/patch.diff" 2>/dev/null; then echo "$name: PATCH NO LONGER APPLIES"; cd /verif; continue; fi
-  git apply "/verif/$d/patch.diff"
-  FIRED=""
-  for p in C01 C04 C05 C07 C08 C10 C11 C12 C14 C15 C17 C18 C19 C20; do
-    OUT=$(cd /verif && ./run.sh $p quick 2>&1); RC=$?
-    if [ $RC -ne 0 ]; then FIRED="$FIRED $p:[$(echo "$OUT" | grep -E '^(VIOLATION|UNDECIDED):' | sed -E 's/^(VIOLATION|UNDECIDED): ([^ ]+) (.*) at .*/\2\/\3/' | cut -c1-80 | tr '\n' ';')]"; fi
-  done
-  git checkout -- . ; git clean -fdq
-  cd /verif
-  python3 - "$d" "$FIRED" <<'PY'
-import json,sys,re
-d,fired=sys.argv[1],sys.argv[2]
-m=json.load(open(d+'meta.json'))
-caught=sorted(set(re.findall(r'(C\d\d):\[',fired)))
-m['checks_that_report_it']=caught; m['reports']=fired.strip(); m['detected']=bool(caught)
-json.dump(m,open(d+'meta.json','w'),indent=1)
-print(m['name'],'->',caught if caught else 'MISSED')
+J="${1:-8}"; G="${2:-*}"
+./setup.sh >/dev/null || exit 2
+ls -d seeded/$G/ | xargs -P "$J" -I{} sh -c './seed_par.sh {} 2>/dev/null | tail -1' > /tmp/seed_recheck.jsonl
+python3 - <<'PY'
+import json,os,subprocess
+head=subprocess.check_output(['git','-C','/repo','rev-parse','--short','HEAD']).decode().strip()
+n=det=0; missed=[]; bad=[]
+for l in sorted(open('/tmp/seed_recheck.jsonl')):
+    try: r=json.loads(l)
+    except Exception: continue
+    d=r['dir']; mp=d+'/meta.json'
+    if 'error' in r: bad.append((os.path.basename(d),r['error'])); continue
+    m=json.load(open(mp))
+    m['checks_that_report_it']=r['caught_by']; m['reports']=r['reports']; m['detected']=bool(r['caught_by'])
+    m['last_rechecked_at_repo_head']=head; m['still_confirmed']=r['confirmed']
+    json.dump(m,open(mp,'w'),indent=1)
+    n+=1; det+=bool(r['caught_by'])
+    if not r['caught_by']: missed.append(m['name'])
+    if not r['confirmed']: bad.append((m['name'],'no longer confirmed: suite=%s demo_with=%s demo_clean=%s'%(r['suite_failures_with_change'],r['demo_rc_with_change'],r['demo_rc_clean'])))
+print('%d/%d detected'%(det,n)); print('missed:',missed); print('problems:',bad)
 PY
-done
